@@ -45,7 +45,7 @@ def c10_case(draw):
     return {"a": a, "detail": draw(st.sampled_from(["hash", "repr", "context", "all", "hash,repr,context"])),
             "others": others_l, "reuse": draw(st.booleans()), "mode": draw(st.sampled_from(["file", "file", "dir"])),
             "shared_orchestrator": draw(st.booleans()), "iterator": draw(st.integers(0, 5)) == 0,
-            "nonfinite": draw(st.sampled_from([None] * 7 + ["inf", "nan", "-inf"])), "fresh_process": draw(st.integers(0, 9)) == 0}
+            "nonfinite": draw(st.sampled_from([None] * 7 + ["inf", "nan", "-inf"])), "fresh_process": draw(st.sampled_from([False] * 11 + [True]))}
 
 
 def _files() -> Dict[str, str]:
